@@ -95,21 +95,40 @@ var hung bool
 
 var nObserved int
 
+// openDescriptors counts this process's open file descriptors.
+func openDescriptors() int {
+	d, err := os.Open("/proc/self/fd")
+	if err != nil {
+		return 0
+	}
+	names, _ := d.Readdirnames(-1)
+	d.Close()
+	return len(names)
+}
+
 // tick is called before every experiment.  The parser never closes the files
 // it opens (subreader.f is never set): their descriptors are released by
-// finalizers only, so collect regularly.
+// finalizers only.  Keep them well below the limit (4096), so that a single
+// configuration with a few hundred includes always has room.
 func tick() {
 	nObserved++
 	if nObserved%40 == 0 {
 		runtime.GC()
 	}
+	if openDescriptors() > 800 {
+		releaseDescriptors()
+	}
 }
 
-// releaseDescriptors collects and gives the finalizer goroutine time to run.
+// releaseDescriptors collects until the finalizers have closed the leaked
+// files (or two seconds have passed).
 func releaseDescriptors() {
-	for i := 0; i < 3; i++ {
+	for i := 0; i < 100; i++ {
 		runtime.GC()
-		time.Sleep(30 * time.Millisecond)
+		time.Sleep(20 * time.Millisecond)
+		if openDescriptors() < 100 {
+			return
+		}
 	}
 }
 
